@@ -42,7 +42,7 @@ package traceroute
 //@ ensures[C19.once.method] ret1 == nil && params.Protocol == "tcp" ==> params.TCPMethod == "" || params.TCPMethod == TCPConfigSYN || params.TCPMethod == TCPConfigSACK || params.TCPMethod == TCPConfigSYNSocket || params.TCPMethod == TCPConfigPreferSACK
 
 //@ func runE2eProbeOnce
-//@ safety C20 C10
+//@ safety C20 C10 C15
 //@ requires[pre.ctx]        ctx != nil && sendN >= 0
 //@ ensures[ghost.mono]      sendN >= old(sendN)
 //@ ensures[C10.e2e.closed]  forallint(h, !old(selb(isOpen, h)) ==> !selb(isOpen, h))
@@ -52,6 +52,8 @@ package traceroute
 //@ ensures[C20.e2e.other]   !(params.Protocol == "tcp" && (params.TCPMethod == TCPConfigSACK || params.TCPMethod == TCPConfigPreferSACK)) ==> lastarg(runTracerouteOnce, params).TCPMethod == params.TCPMethod
 //@ ensures[C05.e2e.single]  lastarg(runTracerouteOnce, params).MinTTL == params.MaxTTL && lastarg(runTracerouteOnce, params).MaxTTL == params.MaxTTL
 //@ ensures[C10.e2e.err]     ret1 != nil ==> ret0 == 0.0
+//@ ensures[C15.e2e.fail]    lastres(runTracerouteOnce, 1) != nil ==> ret1 != nil && wraps(ret1, lastres(runTracerouteOnce, 1))
+//@ ensures[C15.e2e.ok]      lastres(runTracerouteOnce, 1) == nil ==> ret1 == nil
 //@ modifies *, ghost isOpen, ghost closeN, ghost clock, ghost sendN, ghost sendLog, ghost sendClock, ghost tcpDialed, ghost ioFail
 
 // ---- C15: multi-query orchestration. The goroutines share results/multiErr under resultsAndErrorsMu. Auxiliary
